@@ -382,7 +382,7 @@ def run_generic(ctx):
             else:
                 ctx.add_cases(fam, getattr(gen, fam)(ctx.rng, n))
     pick_samples(ctx)
-    if ctx.prop in ("C01", "C02", "C04", "C10"):
+    if ctx.prop in ("C01", "C02", "C04", "C07", "C09", "C10"):
         design_mc(ctx)
     cases = list(ctx.cases.values())
     for variant in ("dbg", "rel"):
@@ -805,7 +805,8 @@ CONSTANTS
   MacroSepOn = TRUE
 CHECK_DEADLOCK FALSE
 """
-DESIGN_INVS = "NoFault NoInternalError CkptDiscipline CkptBelowStack TokensOrdered LinesMatch PendNonEmpty DoneShape"
+DESIGN_INVS = ("NoFault NoInternalError CkptDiscipline CkptBelowStack TokensOrdered LinesMatch PendNonEmpty DoneShape "
+               "LitPartition DoneBalanced DoneErrPairs")
 
 
 def mc_run(workdir, name, fs, stack, window, emit, invs=DESIGN_INVS, progress=True, timeout=1800, workers=16, calls=9):
@@ -871,17 +872,21 @@ def cover_inputs(ctx, n_per_set=None):
     return out
 
 
-def design_mc(ctx, quick_sets=(("open", 8, 3), ("call", 8, 2)), thorough_sets=None):
-    """Model checks the design invariants on the operational model (regime R2) and records the counts."""
-    sets = quick_sets if ctx.quick() else (thorough_sets or [(fs, 10, 2) for fs in FRAGSETS] + [("open", 12, 3)])
+def design_mc(ctx):
+    """Model checks the design invariants on the operational model (regime R2) and records the counts.
+    Bounds: (fragment set, max stack, max open calls, window in fragments)."""
+    if ctx.quick():
+        sets = [("open", 8, 9, 3), ("str", 30, 1, 2)]
+    else:
+        sets = [("open", 12, 9, 3), ("macrostat", 12, 1, 2), ("call", 30, 1, 2), ("eval", 30, 1, 2), ("str", 30, 1, 2)]
     runs = []
-    for fs, stack, window in sets:
-        st, _ = mc_run(ctx.dir, "mc-%s" % fs, fs, stack, window, False)
+    for fs, stack, calls, window in sets:
+        st, _ = mc_run(ctx.dir, "mc-%s" % fs, fs, stack, window, False, calls=calls)
         runs.append(st)
         ctx.states += st["distinct"]
         ctx.transitions += st["states"]
-        log("[mc] %s stack<=%d window<=%d: %d distinct states, %d generated, %.0fs, invariants hold" % (
-            fs, stack, window, st["distinct"], st["states"], st["wall_s"]))
+        log("[mc] %s stack<=%d calls<=%d window<=%d: %d distinct states, %d generated, %.0fs, invariants hold" % (
+            fs, stack, calls, window, st["distinct"], st["states"], st["wall_s"]))
     ctx.extra["design_model_checking"] = {"module": "spec/MC_SasLexer.tla", "invariants": DESIGN_INVS.split() + ["Progress"],
                                           "runs": runs}
 
@@ -979,7 +984,11 @@ def run_gen_prop(ctx):
 def run_conf(ctx):
     """Conformance of the real lexer with the operational model (drift report; never a verdict)."""
     q = ctx.quick()
-    base_inputs(ctx, soup_n=4000 if q else 60000, trunc_n=300 if q else 3000, mb_n=200 if q else 2000, gen_n=2000 if q else 20000)
+    base_inputs(ctx, soup_n=4000 if q else 60000, trunc_n=300 if q else 3000, mb_n=200 if q else 2000, gen_n=2000 if q else 20000,
+                cover_n=600 if q else 40000)
+    ctx.add_cases("string_family", gen.string_family(ctx.rng, 2500 if q else 40000))
+    ctx.add_cases("num_family", gen.num_family(ctx.rng, 1500 if q else 20000, exhaustive_len=2))
+    ctx.add_cases("sep_family", gen.sep_family(ctx.rng, 1000 if q else 10000))
     cases = list(ctx.cases.values())
     steps = 0
     drift = []
